@@ -13,7 +13,7 @@ from . import c07
 from .c07 import mk_alias, mk_class, mk_mod, mk_sym, num, ref, render
 
 THEOREMS = ["C08_outermost", "C08_scope_value", "C08_spelling_partial",
-            "C08_spec_spelling", "C08_spec_outermost", "C08_apply_args_leaf", "C08_shift_is_sub", "C08_leaf_conversion", "C08_extends_clause_env", "C08_spelling_refuted", "C08_scope_refuted", "C08_example"]
+            "C08_spec_spelling", "C08_spec_outermost", "C08_apply_args_leaf", "C08_shift_is_sub", "C08_leaf_conversion", "C08_extends_clause_env", "C08_extends_leaf_attributes_partial", "C08_extends_leaf_attributes_example", "C08_spelling_refuted", "C08_scope_refuted", "C08_example"]
 
 ATTR_POOL = ["start", "start", "min", "max", "nominal", "value", "value", "fixed"]
 
